@@ -239,7 +239,10 @@ func (fx *FnExec) oblige(class, label, goal, text string, p token.Pos) *Obligati
 	if fx.con != nil {
 		if why, ok := fx.con.Flags["waive:"+class]; ok {
 			fx.waived = append(fx.waived, class+": "+why)
-			fx.assume(goal)
+			if class != "immutable" && class != "monotone" {
+				// (a waived guarantee is simply not checked; assuming it would contradict the facts that make it fail)
+				fx.assume(goal)
+			}
 			return &Obligation{}
 		}
 		// waive <class>#<label prefix> <reason>: only the obligations of that class whose label starts so
@@ -1356,19 +1359,33 @@ func (fx *FnExec) callMods(cc *ssa.CallCommon, mods map[string]bool) bool {
 		}
 		return true
 	}
-	if con.ModAll {
-		return true
-	}
+	allMod := con.ModAll
 	for _, m := range con.Mod {
 		names, all := fx.modTargetNames(con, cc, m)
 		if all {
-			return true
+			allMod = true
+			continue
 		}
 		for _, n := range names {
-			mods[n] = true
+			// private ghosts named next to `*` are recorded too: `*` alone does not cover them
+			if !allMod || strings.HasPrefix(n, "ghost.") || fx.isImmutable(n) {
+				mods[n] = true
+			}
 		}
 	}
-	return false
+	if allMod {
+		// re-scan: names listed before the `*` were skipped above only if not ghosts
+		for _, m := range con.Mod {
+			if names, all := fx.modTargetNames(con, cc, m); !all {
+				for _, n := range names {
+					if strings.HasPrefix(n, "ghost.") || fx.isImmutable(n) {
+						mods[n] = true
+					}
+				}
+			}
+		}
+	}
+	return allMod
 }
 
 // localPath: is addr (an Alloc or a FieldAddr chain on one) inside a non-escaping local?
